@@ -37,12 +37,77 @@ func (si *stmtInliner) inlineAt(file *ast.File, call *ast.CallExpr, fn *types.Fu
 	if sig.TypeParams().Len() > 0 || sig.RecvTypeParams().Len() > 0 {
 		return nil, fmt.Errorf("generic callee")
 	}
+	// defers the inliner can replay: top-level statements of the body of the form `defer a.b.M()` / `defer f()` without
+	// arguments (the unlock idiom). They are removed and their calls are run, last registered first, before every exit that
+	// follows them, after the results were evaluated — what the runtime does on a normal return. (A panic in the body
+	// would skip them in the inlined form; no rule reasons about panics.)
+	simpleDefers := map[*ast.DeferStmt]bool{}
+	var deferList []*ast.DeferStmt
+	for _, st := range decl.Body.List {
+		d, ok := st.(*ast.DeferStmt)
+		if !ok {
+			continue
+		}
+		// arguments: local variables that are never re-assigned (their value at the exits is the value at the defer)
+		argsOK := true
+		for _, a := range d.Call.Args {
+			id, ok := a.(*ast.Ident)
+			if !ok {
+				argsOK = false
+				break
+			}
+			obj := si.info.Uses[id]
+			if obj == nil {
+				argsOK = false
+				break
+			}
+			ast.Inspect(decl.Body, func(m ast.Node) bool {
+				switch y := m.(type) {
+				case *ast.AssignStmt:
+					if y.Tok != token.DEFINE {
+						for _, l := range y.Lhs {
+							if lid, ok := l.(*ast.Ident); ok && si.info.Uses[lid] == obj {
+								argsOK = false
+							}
+						}
+					}
+				case *ast.IncDecStmt:
+					if lid, ok := y.X.(*ast.Ident); ok && si.info.Uses[lid] == obj {
+						argsOK = false
+					}
+				case *ast.UnaryExpr:
+					if y.Op == token.AND {
+						if lid, ok := y.X.(*ast.Ident); ok && si.info.Uses[lid] == obj {
+							argsOK = false
+						}
+					}
+				}
+				return true
+			})
+		}
+		if !argsOK {
+			continue
+		}
+		okFun := false
+		switch f := d.Call.Fun.(type) {
+		case *ast.Ident:
+			okFun = true
+		case *ast.SelectorExpr:
+			okFun = plainLvalue(f.X)
+		}
+		if okFun {
+			simpleDefers[d] = true
+			deferList = append(deferList, d)
+		}
+	}
 	// callee restrictions
 	bad := ""
 	ast.Inspect(decl.Body, func(n ast.Node) bool {
 		switch x := n.(type) {
 		case *ast.DeferStmt:
-			bad = "defer"
+			if !simpleDefers[x] {
+				bad = "defer"
+			}
 		case *ast.BranchStmt:
 			if x.Tok == token.GOTO {
 				bad = "goto"
@@ -332,6 +397,55 @@ func (si *stmtInliner) inlineAt(file *ast.File, call *ast.CallExpr, fn *types.Fu
 	var edits []edit
 	off := func(p token.Pos) int { return si.fset.Position(p).Offset }
 	bodyStart, bodyEnd := off(decl.Body.Lbrace)+1, off(decl.Body.Rbrace)
+	// text of a deferred call with the callee's identifiers renamed
+	renamedText := func(e ast.Expr) string {
+		src := calleeSrc[off(e.Pos()):off(e.End())]
+		type ed struct {
+			s, e int
+			t    string
+		}
+		var eds []ed
+		ast.Inspect(e, func(m ast.Node) bool {
+			if sel, ok := m.(*ast.SelectorExpr); ok {
+				// only the operand chain's root can be a local
+				root := sel.X
+				for {
+					if s2, ok := root.(*ast.SelectorExpr); ok {
+						root = s2.X
+						continue
+					}
+					break
+				}
+				if id, ok := root.(*ast.Ident); ok {
+					if nn, ok := rename(id); ok {
+						eds = append(eds, ed{off(id.Pos()) - off(e.Pos()), off(id.End()) - off(e.Pos()), nn})
+					}
+				}
+				return false
+			}
+			if id, ok := m.(*ast.Ident); ok {
+				if nn, ok := rename(id); ok {
+					eds = append(eds, ed{off(id.Pos()) - off(e.Pos()), off(id.End()) - off(e.Pos()), nn})
+				}
+			}
+			return true
+		})
+		sort.Slice(eds, func(i, j int) bool { return eds[i].s > eds[j].s })
+		out := append([]byte{}, src...)
+		for _, x := range eds {
+			out = append(append(append([]byte{}, out[:x.s]...), x.t...), out[x.e:]...)
+		}
+		return string(out)
+	}
+	deferredAt := func(pos token.Pos) string {
+		var parts []string
+		for i := len(deferList) - 1; i >= 0; i-- {
+			if deferList[i].End() <= pos {
+				parts = append(parts, renamedText(deferList[i].Call)+"; ")
+			}
+		}
+		return strings.Join(parts, "")
+	}
 	var walk func(n ast.Node, inLit bool)
 	walk = func(n ast.Node, inLit bool) {
 		ast.Inspect(n, func(m ast.Node) bool {
@@ -365,17 +479,25 @@ func (si *stmtInliner) inlineAt(file *ast.File, call *ast.CallExpr, fn *types.Fu
 						}
 					}
 				}
+			case *ast.DeferStmt:
+				if simpleDefers[x] && !inLit {
+					// the statement itself disappears (its call is replayed at the exits); identifiers inside are renamed
+					// where they are replayed, from the renamed text below
+					edits = append(edits, edit{off(x.Pos()), off(x.End()), "/* defer replayed at exits */"})
+					return false
+				}
 			case *ast.ReturnStmt:
 				if inLit {
 					return true
 				}
 				kw := off(x.Pos())
+				replay := deferredAt(x.Pos())
 				switch {
 				case len(x.Results) == 0:
-					edits = append(edits, edit{kw, kw + len("return"), "break " + label})
+					edits = append(edits, edit{kw, kw + len("return"), replay + "break " + label})
 				default:
 					edits = append(edits, edit{kw, kw + len("return"), strings.Join(resNames, ", ") + " ="})
-					edits = append(edits, edit{off(x.End()), off(x.End()), "; break " + label})
+					edits = append(edits, edit{off(x.End()), off(x.End()), "; " + replay + "break " + label})
 				}
 			}
 			return true
@@ -419,7 +541,7 @@ func (si *stmtInliner) inlineAt(file *ast.File, call *ast.CallExpr, fn *types.Fu
 		fmt.Fprintf(&b, "var %s%s %s = %s\n_ = %s%s\n", name, sfx, typ, argText, name, sfx)
 	}
 	b.Write(body)
-	fmt.Fprintf(&b, "\nbreak %s\n}\n", label)
+	fmt.Fprintf(&b, "\n%sbreak %s\n}\n", deferredAt(decl.Body.Rbrace), label)
 	// the carrier statement with the call replaced by the result variables
 	rvars := strings.Join(resNames, ", ")
 	stmtText := string(callerSrc[off(stmt.Pos()):off(stmt.End())])
